@@ -49,6 +49,10 @@ CHECKS["C15"] = dict(cat="model_checking", design="DESIGN.md §4 C15",
    text="RandModel.tla models the generated rand functions as a recursive process over the type graph and TLC shows, for every legal two-type program, that the call stack grows without bound only for types from which a type-graph cycle is reachable and that every other function returns (liveness under weak fairness). RandDef.tla states well-formedness of returned values (enum components among the exported constants, union components non-nil members, containers populated, skipped fields zero), variation, and the C02 wire format. The generated functions of seeded random packages are compiled and called K times per type under a stack limit and a timeout; TraceRand.tla judges every returned value tree.",
    note="Trusted: TLC; the in-binary engine; OS-level stack limit / timeout for termination. Types from which a cycle is reachable never return (recorded finding, class computed from the analysed graph and cross-checked against the model's prediction); a few are executed in one witness program per run, the others are not called.",
    tech="TLA+ model of the generated recursion (RandModel.tla) checked by TLC incl. liveness + verdict-style trace validation (TraceRand.tla, RandDef.tla) of values returned by the compiled generated code")
+CHECKS["C03"] = dict(cat="model_checking", design="DESIGN.md §4 C03",
+   text="TsSem.tla gives the generated TypeScript declarations a structural semantics (Inhabits: exact property sets, primitive kinds, null only where admitted, tuple lengths, literal sets through the const-object idiom, Kind/Data alternatives, brands, Record key spaces) and well-formedness of the environment (every mentioned name declared exactly once). The real TypeScript output of seeded random packages is parsed by a declaration parser (a syntax error is a violation), and TLC judges every JSON document that the compiled Go code emits for reflection-built values of every top-level type against the parsed declaration of that type.",
+   note="Trusted: TLC; the TypeScript parser of the harness (no tsc here); the in-binary engine. Reading choices are listed in DESIGN.md §4 C03 (brands inhabited by their base, Record keys inside the key space, enum components hold members, omitempty/string options excluded). Two recorded findings are exercised by fixed witnesses.",
+   tech="TLA+ semantics of the TypeScript type language (TsSem.tla) + trace validation (TraceTs.tla, environment carried as state) of real generator output against documents emitted by compiled Go code")
 NOT_APPLICABLE = {}
 ALL = ["C%02d" % i for i in range(1, 21)]
 
